@@ -169,7 +169,7 @@ def setup(tier, seed):
     jobs = _jobs(tier)
     return {
         'jobs': jobs,
-        'budget_s': 900 if tier == 'quick' else 3300,
+        'budget_s': 780 if tier == 'quick' else 3300,
         'explanation': 'product program: the same symbolic single-symbol session runs through fast_mode=False and then fast_mode=True on one path (shared '
                        'symbols); the precondition (at most one resting-order fill per trading-candle span, no liquidation) is evaluated on the normal '
                        'run; z3 then proves executed orders (side, type, qty, price, fill minute), closed trades and final balances equal. Paths outside '
